@@ -23,7 +23,8 @@ META = {
     "write/read/peek/clear attempts; the model is tied to the code by cycle-exact comparison of done bits, returned data, "
     "peek.ready, level, both pointers and the head register over depths 1..9 (thorough 1..17), several layouts, directed "
     "wrap-around/full/empty/clear sequences, random regimes and (thorough) all histories up to length 3 (BasicFifo, depths 1-2; length 2 at depth 3) / 4 (FIFO, depths 1-3)"
-    " Multi-caller scenarios: a wrapper owning the real component with two AdapterTrans on each of write/read/peek; per cycle each caller attempts independently, the model grants exclusive methods to the first attempting caller in the priority order probed from the real scheduler (c14_callers theorem: at most one caller executes and it sees the single-port outcome), the monitor accepts either winner and checks at-most-one executing caller per exclusive method and exactly-once in-order delivery over the union of all callers.",
+    " Multi-caller scenarios: a wrapper owning the real component with two AdapterTrans on each of write/read/peek; per cycle each caller attempts independently, the model grants exclusive methods to the first attempting caller in the priority order probed from the real scheduler (c14_callers theorem: at most one caller executes and it sees the single-port outcome), the monitor accepts either winner and checks at-most-one executing caller per exclusive method and exactly-once in-order delivery over the union of all callers."
+    " FIFO(fifo_type=SyncFIFOBuffered) is a third configuration class: its own Lean model (inner queue of depth-1 + output register, readiness = the wrapped w_rdy/r_rdy) is compared in lock-step for depths 0..5, 8 (thorough: all), c14_buffered_data/_order/_read_value prove the data clauses in full; of the readiness clause only c14_buffered_ready_partial (ready => possible, executes iff attempted and ready, at most one cycle late) holds - the iff fails on the unchanged code (finding F-c14-1, witness replayed, KNOWN-FINDING once listed); the monitor checks data strictly and the weakened readiness for this class.",
     "level_note": "trusted: Lean kernel with axioms propext/Classical.choice/Quot.sound; Amaranth semantics, amaranth.lib.memory "
     "(transparent sync read port) and pysim; amaranth.lib.fifo.SyncFIFO is *modelled* as the ideal queue with level-based "
     "readiness (no theorem about its source; checked in lock-step incl. depth 0); data layouts are flattened to one number "
@@ -45,6 +46,11 @@ def _sim(cls: str, depth: int, widths: tuple, callers: int = 0) -> CompSim:
             from transactron.lib.fifo import BasicFifo
 
             mk = lambda: BasicFifo(_layout(widths), depth)  # noqa: E731
+        elif cls == "fifobuf":
+            import amaranth.lib.fifo
+            from transactron.lib.connectors import FIFO
+
+            mk = lambda: FIFO(_layout(widths), depth, fifo_type=amaranth.lib.fifo.SyncFIFOBuffered)  # noqa: E731
         else:
             from transactron.lib.connectors import FIFO
 
@@ -109,6 +115,11 @@ def monitor(case: Case, out: list[str]):
         fail, case, out = reduce_multi(case, out)
         if fail:
             return f"{case.desc['component']}: {fail}"
+    # FIFO(fifo_type=SyncFIFOBuffered): the data clauses are checked in full; of the readiness clause only what the
+    # unchanged code meets: ready => possible, executes iff attempted and ready, and "at most one cycle late".  The
+    # full "iff" is the known finding F-c14-1 (replayed through its witness, desc clause=readiness-iff => strict).
+    relaxed = case.desc["cls"] == "fifobuf" and case.desc.get("clause") != "readiness-iff"
+    owe_r = owe_w = False
     q: deque = deque()
     for k, (line, obs) in enumerate(zip(case.ops, out[1:])):
         w, r, p, c = parse(line)
@@ -117,6 +128,22 @@ def monitor(case: Case, out: list[str]):
         pret = optv(f["p"]) if basic else None
         cdone = basic and f["c"] == "1"
         nonempty, nonfull = len(q) > 0, len(q) < depth
+        if relaxed:
+            rr, wr_ = f["rdy"][0] == "1", f["rdy"][1] == "1"
+            if rr and not nonempty:
+                return f"cycle {k}: read.ready=1 with no stored element"
+            if wr_ and not nonfull:
+                return f"cycle {k}: write.ready=1 with {len(q)}/{depth} stored elements"
+            if (rret is not None) != (bool(r) and rr):
+                return f"cycle {k}: read attempted={r} ready={int(rr)} executed={rret is not None}"
+            if wdone != (w is not None and wr_):
+                return f"cycle {k}: write attempted={w is not None} ready={int(wr_)} executed={wdone}"
+            if owe_r and not rr:
+                return f"cycle {k}: read not ready for the second cycle in a row with {len(q)} stored elements"
+            if owe_w and not wr_:
+                return f"cycle {k}: write not ready for the second cycle in a row with {len(q)}/{depth} stored elements"
+            owe_r, owe_w = nonempty and not rr, nonfull and not wr_
+            nonempty, nonfull = rr, wr_  # the strict checks below then only concern data
         if (rret is not None) != (bool(r) and nonempty):
             return f"cycle {k}: read attempted={r} executed={rret is not None} with {len(q)} stored elements"
         if wdone != (w is not None and nonfull):
@@ -130,7 +157,7 @@ def monitor(case: Case, out: list[str]):
                 return f"cycle {k}: peek.ready={f['rdy']} with {len(q)} stored elements"
             if int(f["lvl"]) != len(q):
                 return f"cycle {k}: level={f['lvl']} but {len(q)} elements written and not yet read since the last clear"
-        else:
+        elif not relaxed:
             if f["rdy"] != f"{int(nonempty)}{int(nonfull)}":
                 return f"cycle {k}: read.ready,write.ready={f['rdy']} with {len(q)}/{depth} stored elements"
         if rret is not None and rret != q[0]:
@@ -170,13 +197,20 @@ def nontrivial(case: Case, out: list[str]) -> bool:
 
 
 # ----------------------------------------------------------------------------- cases
+def _desc(cls: str, depth: int, widths) -> dict:
+    d = {"component": "BasicFifo" if cls == "basic" else "FIFO", "cls": cls, "depth": depth, "layout": list(widths)}
+    if cls != "basic":
+        d["fifo_type"] = "SyncFIFOBuffered" if cls == "fifobuf" else "SyncFIFO"
+    return d
+
+
 def _mk(cls: str, depth: int, widths: tuple, cycs, tag: str) -> Case:
     width = sum(widths)
     short = cls != "basic"
     return Case(
         f"cfg cls={cls} depth={depth} w={width}",
         [fmt(c, short) for c in cycs],
-        {"component": "BasicFifo" if cls == "basic" else "FIFO", "cls": cls, "depth": depth, "layout": list(widths)},
+        _desc(cls, depth, widths),
         tag,
     )
 
@@ -186,7 +220,7 @@ def _mk_multi(cls: str, depth: int, widths: tuple, lines: list[str], tag: str, c
     return Case(
         f"cfg cls={cls} depth={depth} w={sum(widths)} callers={callers} pw={','.join(map(str, pw))} pr={','.join(map(str, pr))}",
         lines,
-        {"component": "BasicFifo" if cls == "basic" else "FIFO", "cls": cls, "depth": depth, "layout": list(widths), "callers": callers},
+        {**_desc(cls, depth, widths), "callers": callers},
         tag,
     )
 
@@ -222,10 +256,13 @@ def gen_cases(ctx: Check, cls: str) -> list[Case]:
     cfgs = _configs(ctx)
     if cls == "fifo":
         cfgs = [(0, (4,))] + cfgs  # SyncFIFO accepts depth 0: nothing is ever ready
+    elif cls == "fifobuf":
+        # depth 0 (never ready), 1 (single register), >= 2 (inner memory + output register)
+        cfgs = [(0, (4,))] + [c for c in cfgs if ctx.thorough or c[0] in (1, 2, 3, 4, 5, 8)]
     else:
         # excluded point of the theorems' hypothesis 0 < depth: the real code refuses to elaborate (model: same)
         cases.append(_mk(cls, 0, (4,), [(1, 1, 1, 0), (None, 0, 0, 1)], "directed"))
-    strip = (lambda cyc: (cyc[0], cyc[1], 0, 0)) if cls == "fifo" else (lambda cyc: cyc)
+    strip = (lambda cyc: (cyc[0], cyc[1], 0, 0)) if cls != "basic" else (lambda cyc: cyc)
     for depth, lay in cfgs:
         width = sum(lay)
         if depth <= ctx.pick(9, 17):
@@ -251,7 +288,7 @@ def more_cases(case: Case, rng):
         for k in range(40):
             yield _mk_multi(cls, depth, lay, random_multi_ops(rng, 100, sum(lay), *REGIMES[k % len(REGIMES)], short=cls != "basic"), "search")
         return
-    strip = (lambda cyc: (cyc[0], cyc[1], 0, 0)) if cls == "fifo" else (lambda cyc: cyc)
+    strip = (lambda cyc: (cyc[0], cyc[1], 0, 0)) if cls != "basic" else (lambda cyc: cyc)
     for k in range(40):
         reg = REGIMES[k % len(REGIMES)]
         yield _mk(cls, depth, lay, [strip(c) for c in random_ops(rng, 200, sum(lay), *reg)], "search")
@@ -265,17 +302,24 @@ def run(ctx: Check):
         "callers compete for a ready exclusive method"
     )
     ctx.proof_stage()
+    ctx.replay_findings(replay_witness)
     procs = ctx.pick(1, 8)
     # one Lean driver process serves both classes (the cfg line of a case selects the model)
     cases = []
-    for cls in ("basic", "fifo"):
+    for cls in ("basic", "fifo", "fifobuf"):
         cs = gen_cases(ctx, cls) + gen_multi(ctx, cls)
         ctx.count(f"configs_{cls}", len({c.cfg for c in cs}))
         cases += cs
     ctx.count("cases_multi_caller", sum(1 for c in cases if c.desc.get("callers")))
-    lockstep(ctx, "basicfifo+fifo-syncfifo-wrapper", "C14", cases, impl, monitor, more_cases, nontrivial, procs=procs)
+    lockstep(ctx, "basicfifo+fifo-syncfifo+fifo-syncfifobuffered", "C14", cases, impl, monitor, more_cases, nontrivial, procs=procs)
     ctx.note("BasicFifo.read/.write have constant ready=1 in the source; their effective readiness (through the allocator's "
              "alloc/free) is observed as done-when-attempted; peek.ready = allocator.free.ready is compared every cycle")
+
+
+def replay_witness(w: dict):
+    """witness of a known finding / repaired defect: a case (cfg, ops, desc) evaluated by the property monitor"""
+    case = Case(w["cfg"], list(w["ops"]), w.get("desc", {}), "witness")
+    return monitor(case, impl(case))
 
 
 def replay(ctx: Check, body: dict):
